@@ -70,6 +70,13 @@ func (bucket *Bucket) _closeSqliteDB() {
 	for _, c := range bucket.collections {
 		c.close()
 	}
+	// Feeds may also have been started through other handles, on collections this handle never opened:
+	for name, feeds := range bucket.collectionFeeds {
+		for _, feed := range feeds {
+			feed.close()
+		}
+		delete(bucket.collectionFeeds, name)
+	}
 	if bucket.sqliteDB != nil {
 		bucket.sqliteDB.Close()
 		bucket.collections = nil
